@@ -251,11 +251,25 @@ func runC09(c *fw.Ctx) {
 	ex.Net.Policy = sim.DrawPolicy(ex.Net)
 	injected := 0
 	span := 3 * len(ex.Order) * len(ex.Order) * 3
+	// an abort notice of session X (round 0, carrying X's session tag): one party of X is stopped
+	if len(xs.Order) > 0 {
+		xn := xs.Nodes[xs.Order[c.S.Draw(len(xs.Order), "x-stopper")]]
+		if xn.H != nil && !xn.Dead {
+			// a fresh instance of that party, stopped while running
+			if h2, err := X.Mk()[xn.ID](); err == nil && h2 != nil {
+				tmp := &sim.Node{ID: xn.ID, H: h2, Rng: sim.NewDRBG(c.Label("x-stop", xn.ID)), Honest: true}
+				msgs := xs.Net.Call(tmp, func() { h2.Stop() })
+				for _, m := range msgs {
+					if m.RoundNumber == 0 {
+						xn.Sent = append(xn.Sent, m)
+						c.Fault("foreign_abort_notice_presented", 1)
+					}
+				}
+			}
+		}
+	}
 	for _, id := range xs.Order {
 		for _, m := range xs.Nodes[id].Sent {
-			if m.RoundNumber == 0 {
-				continue
-			}
 			for _, tid := range ex.Order {
 				if !m.IsFor(tid) {
 					continue
